@@ -13,6 +13,7 @@ import itertools
 import numpy as np
 
 from ..poly import P, normal
+from ..pycheck import keep_matrix as _keep_matrix
 from .. import pysym, shims, kharness as K
 from ..pysym import real, integer, to_z3, Opaque, SymRaise, Obj
 from . import py_conecyl as PC
@@ -39,8 +40,8 @@ def harness():
     it.np.isinf = lambda x: False
     it.np.any = lambda x: x
     it.contracts['compmech.sparse.make_symmetric'] = lambda itp, a, kw: Opaque('sym', of=a[0])
-    it.contracts['scipy.sparse.csr_matrix'] = lambda itp, a, kw: a[0]
-    it.contracts['scipy.sparse.coo_matrix'] = lambda itp, a, kw: a[0]
+    it.contracts['scipy.sparse.csr_matrix'] = _keep_matrix
+    it.contracts['scipy.sparse.coo_matrix'] = _keep_matrix
     def exclude(itp, a, kw):
         import hashlib
         cc, k = a[0], a[1]
@@ -80,6 +81,8 @@ CHANGES = {
     'H': ('H', real('H_new')),
     'thetaTdeg': ('thetaTdeg', real('thetaTdeg_new')),
     'betadeg': ('betadeg', real('betadeg_new')),
+    # a constitutive matrix given directly (it takes precedence over the laminate built from the stack)
+    'F_reuse': ('F_reuse', Opaque('constitutive matrix given by the user')),
 }
 
 
@@ -147,7 +150,7 @@ def replay_change(op, ch):
         return _RP[key]
     from .. import pyreplay, shell_oracle as O
     script = O.COMMON + """
-new = {'r2': 500., 'alphadeg': 30., 'Fc': 2000., 'plyt': 0.25, 'P': 0.2, 'H': 800., 'thetaTdeg': 1.1, 'betadeg': 0.7}[payload['ch']]
+new = {'r2': 500., 'alphadeg': 30., 'Fc': 2000., 'plyt': 0.25, 'P': 0.2, 'H': 800., 'thetaTdeg': 1.1, 'betadeg': 0.7, 'F_reuse': np.diag([1.e5, 1.e5, 3.e4, 1.e4, 1.e4, 3.e3])}[payload['ch']]
 def fresh(changed):
     cc = make(payload); cc.pdC = False; cc.pdT = True; cc.nx = 16; cc.nt = 16; cc.Fc = 1000.; cc.P = 0.05; cc.thetaTdeg = 0.4; cc.betadeg = 0.2
     cc.add_force(100., 30., 1., 2., 3.)
